@@ -308,10 +308,14 @@ def o94(ctx):
         ctx.finding(q, subs[0].node if subs else fn, "the particles of tomogram t must be selected for mask t", subs[0].node if subs else fn, m)
 
 
-def obligations():
+def _obligations():
     return [
         Obligation("O9.1", "out-of-bounds removal: both sides, per axis, against the particle's own tomogram", o91, floor=30),
         Obligation("O9.2", "trimming: x' = x - (start-1), kept iff 1 <= x' <= extent on every axis (ties)", o92, floor=70),
         Obligation("O9.3", "point cleaner: group subsets on both tables, complete positions, caller's radius, positional drop, unconditional concat", o93, floor=7),
         Obligation("O9.4", "mask cleaner: mask i with tomogram i, two-sided bounds, axis order, zero voxels, positions mapped back", o94, floor=14),
     ]
+
+
+def obligations():
+    return _obligations() + [effects_obligation("C09")]
